@@ -627,7 +627,7 @@ def rle_to_sparse(rle_data):
         pass
     if len(indices) == 0:
         assert len(values) == 0
-        return indices, values
+        return np.zeros(0, dtype=np.int64), np.zeros(0, dtype=rle_data.dtype)
 
     indices = np.concatenate(indices)
     values = np.concatenate(values, dtype=rle_data.dtype)
@@ -637,6 +637,8 @@ def rle_to_sparse(rle_data):
 def brle_to_sparse(brle_data, dtype=np.int64):
     ends = np.cumsum(brle_data)
     indices = [np.arange(s, e, dtype=dtype) for s, e in zip(ends[::2], ends[1::2])]
+    if len(indices) == 0:
+        return np.zeros(0, dtype=dtype)
     return np.concatenate(indices)
 
 
